@@ -45,6 +45,9 @@ def run_one(entry, props, tier, seed):
             except subprocess.TimeoutExpired:
                 rc, out = 124, "timeout"
             oracles = sorted({l.split("]")[0].strip().lstrip("[") for l in out.splitlines() if l.strip().startswith("[")})
+            if rc == 1 and not any(l.startswith("VIOLATION property=") for l in out.splitlines()):
+                rc = 2   # exit 1 without a VIOLATION line is not a verdict
+                out += "\n(exit 1 without a VIOLATION line)"
             res["results"][p] = {"rc": rc, "oracles": oracles[:8], "wall_s": round(time.time() - t0, 1)}
             if rc not in (0, 1):
                 res["results"][p]["tail"] = out[-1500:]
